@@ -38,7 +38,10 @@ PStep(S, m0, e) ==
              b == Check(a, "StageSubmittedOnce", TRUE, m.created[e.k] = 0)
              c == Check(b, "StagesInOrder", TRUE, e.k = MaxCreated(S, m) + 1)
              d == Check(c, "CurrentStageRecorded", TRUE, m.pstage = e.k)
-         IN [d EXCEPT !.created[e.k] = @ + 1]
+             \* stage k is configured when it is its turn: it runs the jobs its configuration names *then* (a file that an
+             \* earlier stage rewrote is read after that stage, not when the pipeline was submitted)
+             f == Check(d, "StageRunsCurrentConfig", "stagejobs" \in DOMAIN S /\ Len(S.stagejobs) = S.n, e.jobs = S.stagejobs[e.k])
+         IN [f EXCEPT !.created[e.k] = @ + 1]
     [] e.e = "activity" ->
          LET a == Check(m, "StageAfterPrevComplete", TRUE, PrevComplete(m, e.k))
              b == Check(a, "ActivityInCreatedStage", TRUE, m.created[e.k] = 1)
@@ -72,5 +75,6 @@ PStep(S, m0, e) ==
 
 C15Clauses == {"StageKnown", "StageAfterPrevComplete", "StageSubmittedOnce", "StagesInOrder", "CurrentStageRecorded",
                "ActivityInCreatedStage", "StageNumMonotone", "StageAdvancesAfterComplete", "ReturnCodesMatch",
-               "PipelineCompleteLast", "PipelineCompleteSticky", "PipelineCompletes", "StageConfiguredOnce"}
+               "PipelineCompleteLast", "PipelineCompleteSticky", "PipelineCompletes", "StageConfiguredOnce",
+               "StageRunsCurrentConfig"}
 =============================================================================
